@@ -5,6 +5,7 @@ import (
 	"fmt"
 	"sort"
 	"strings"
+	"sync"
 
 	"go.mongodb.org/mongo-driver/bson"
 	"go.mongodb.org/mongo-driver/bson/primitive"
@@ -35,6 +36,9 @@ type c04Call struct {
 	commitsB int // published oplog length at invoke
 	commitsR int // at return
 }
+
+// c04Sessions hands a session from one operation of a thread to the next (keyed by the engine under test).
+var c04Sessions sync.Map
 
 type c04Scenario struct {
 	name    string
@@ -200,6 +204,71 @@ func c04Scenarios() []*c04Scenario {
 			return obsUpdate(res, err)
 		}}
 	}
+	// a manually managed session transaction whose commit the store may reject, and a later write through the same session
+	sessCommit := func(tag string) *c04Op {
+		return &c04Op{name: "session{$inc n}+commit", write: true, owns: tagged(tag), run: func(w *world.World, ctx context.Context) string {
+			sess, err := w.Client.StartSession()
+			if err != nil {
+				return "err"
+			}
+			c04Sessions.Store(w, sess)
+			if err := sess.StartTransaction(); err != nil {
+				return "err"
+			}
+			var res string
+			_ = lungo.WithSession(ctx, sess, func(sc lungo.ISessionContext) error {
+				r1, e1 := w.C("d", "c").UpdateOne(sc, bD("_id", int32(1)), bD("$inc", bD("n", int32(1)), "$set", bD("last", "mk-"+tag)))
+				res = obsUpdate(r1, e1)
+				return nil
+			})
+			return res + " commit=" + world.ErrClass(sess.CommitTransaction(ctx))
+		}}
+	}
+	sessAgain := func(tag string) *c04Op {
+		return &c04Op{name: "same session: $inc n", write: true, owns: tagged(tag), run: func(w *world.World, ctx context.Context) string {
+			v, ok := c04Sessions.Load(w)
+			if !ok {
+				return "no session"
+			}
+			sess := v.(lungo.ISession)
+			defer sess.EndSession(ctx)
+			defer c04Sessions.Delete(w)
+			var res string
+			_ = lungo.WithSession(ctx, sess, func(sc lungo.ISessionContext) error {
+				r1, e1 := w.C("d", "c").UpdateOne(sc, bD("_id", int32(1)), bD("$inc", bD("n", int32(1)), "$set", bD("last", "mk-"+tag)))
+				res = obsUpdate(r1, e1)
+				return nil
+			})
+			return res
+		}}
+	}
+	failingStore := func(w *world.World) {
+		seed(bD("_id", int32(1), "n", int32(0)))(w)
+		w.Store.FailNext = 1
+	}
+	// an engine-level transaction that creates a collection and is aborted; a reader lists the collections meanwhile
+	ghost := func() *c04Op {
+		return &c04Op{name: "engine.txn{Create d.ghost}+abort", write: true, owns: func(string) bool { return false }, run: func(w *world.World, ctx context.Context) string {
+			txn, err := w.Engine.Begin(ctx, true)
+			if err != nil {
+				return "err"
+			}
+			cerr := txn.Create(lungo.Handle{"d", "ghost"})
+			w.Engine.Abort(txn)
+			return "create=" + world.ErrClass(cerr)
+		}}
+	}
+	listColls := func() *c04Op {
+		return &c04Op{name: "ListCollectionNames(d)", run: func(w *world.World, ctx context.Context) string {
+			names, err := w.Client.Database("d").ListCollectionNames(ctx, bD())
+			sort.Strings(names)
+			if err != nil || strings.Join(names, ",") != "c" {
+				return fmt.Sprintf("collections %v (err %v)", names, err)
+			}
+			// (the oracle of reads compares with whole states)
+			return c04Find(w, ctx, nil)
+		}}
+	}
 	d1 := bD("_id", int32(1), "n", int32(0))
 	d2 := bD("_id", int32(2), "n", int32(0))
 	ttl := func(w *world.World) {
@@ -251,6 +320,33 @@ func c04Scenarios() []*c04Scenario {
 				want := J(bD("_id", int32(1), "p", int32(1), "n", int32(0))) + "|" + J(bD("_id", int32(2), "p", int32(3), "n", int32(1), "last", "mk-a")) + "|" + J(bD("_id", int32(3), "p", int32(2), "n", int32(1), "last", "mk-b"))
 				if final != want {
 					return "the collection ends as " + final + ", expected " + want
+				}
+				return ""
+			}},
+		{name: "S16 session transaction whose commit the store may reject, the session used again, vs plain $inc", setup: failingStore, threads: [][]*c04Op{{sessCommit("s1"), sessAgain("s2")}, {inc("w", 10)}}, bound: -1,
+			expect: func(calls []*c04Call, final string) string {
+				want := int32(0)
+				for _, c := range calls {
+					switch {
+					case c.op.name == "session{$inc n}+commit" && strings.HasSuffix(c.result, "commit=ok"):
+						want++
+					case c.op.name == "same session: $inc n" && strings.HasPrefix(c.result, "ok matched=1 modified=1"):
+						want++
+					case strings.HasPrefix(c.op.name, "UpdateOne($inc n 10)") && strings.HasPrefix(c.result, "ok matched=1 modified=1"):
+						want += 10
+					}
+				}
+				if !strings.Contains(final, fmt.Sprintf(`"n":{"$numberInt":"%d"}`, want)) {
+					return fmt.Sprintf("the acknowledged increments add up to %d, the collection ends as %s", want, final)
+				}
+				return ""
+			}},
+		{name: "S17 aborted engine-level transaction creating a collection vs reader listing collections", setup: seed(d1), threads: [][]*c04Op{{ghost()}, {listColls(), listColls()}},
+			expect: func(calls []*c04Call, final string) string {
+				for _, c := range calls {
+					if c.op.name == "ListCollectionNames(d)" && strings.HasPrefix(c.result, "collections ") {
+						return "a reader listed " + c.result + " although the transaction that created d.ghost never committed"
+					}
 				}
 				return ""
 			}},
